@@ -45,6 +45,7 @@ struct RunCtx {
 	std::vector<Violation> viols;
 	std::map<std::string, uint64_t> counters; // probes, fault fired counts, audit counts
 	std::vector<std::string> notes;
+	bool keep_notes = false; // replay --trace: violations are also written into the notes at the point they are found
 	bool nontrivial = false;
 	// when an allocation failure was injected, every divergence is a C18 matter ("contained")
 	std::string prop_override;
@@ -72,6 +73,12 @@ struct RunCtx {
 		v.step = sim_steps();
 		v.t_ns = sim_now_ns();
 		viols.push_back(v);
+		if (keep_notes) {
+			char nb[700];
+			snprintf(nb, sizeof(nb), "[t=%llu.%03llu task=%d] VIOLATION %s: %.500s", (unsigned long long)(v.t_ns / 1000000000ull),
+				 (unsigned long long)(v.t_ns / 1000000 % 1000), sim_self(), v.sig.c_str(), buf);
+			notes.push_back(nb);
+		}
 		sim_log(EV_OBS, 0xdead, viols.size());
 	}
 	void count(const std::string &k, uint64_t n = 1) { counters[k] += n; }
